@@ -64,7 +64,7 @@ use crate::consensus::block_producer::BlockProducer;
 use crate::crypto::{aggsig, signature};
 use crate::network::{RepairRequesterNetwork, RepairResponderNetwork, TransactionNetwork};
 use crate::repair::{Repair, RepairRequestHandler};
-use crate::shredder::{Shred, ValidatedShred};
+use crate::shredder::{Shred, ShredValidationError, ValidatedShred};
 use crate::types::Fraction;
 use crate::{All2All, Disseminator, Slot, ValidatorInfo};
 
@@ -394,7 +394,17 @@ where
             .cached_commitment(slot, slice_index);
         let validated = match ValidatedShred::try_new(shred, cached.as_ref(), &leader_pk) {
             Ok(v) => v,
-            Err(_) => return Ok(()),
+            Err(ShredValidationError::Equivocation) => {
+                // a second, validly signed commitment for this slice proves that the leader
+                // equivocated: report it (the conflicting shred itself is neither forwarded nor stored)
+                self.blockstore
+                    .write()
+                    .await
+                    .flag_leader_misbehavior(slot)
+                    .await;
+                return Ok(());
+            }
+            Err(ShredValidationError::InvalidSignature) => return Ok(()),
         };
 
         // potentially forward shred
